@@ -345,10 +345,10 @@ Definition reflag (fixed : bool) (s : st) (existed : bool) (oldc : prefix) (know
     | None => s
     end) (stored s) s.
 
-Definition on_node (fixed : bool) (s : st) (n : N) (v : option nodev) : st :=
+(* onNodeUpdate past its "no change" test *)
+Definition on_node_forced (fixed : bool) (s : st) (n : N) (v : option nodev) : st :=
   let old := aget N.eqb (s_nodes s) n in
   let new := option_map ninfo_of v in
-  if opt_eqb ninfo_eqb old new then s else
   let s := if N.eqb n me then
              let oldc := match old with Some i => ni_cidr i | None => zero_cidr end in
              let newc := match new with Some i => ni_cidr i | None => zero_cidr end in
@@ -371,15 +371,27 @@ Definition on_node (fixed : bool) (s : st) (n : N) (v : option nodev) : st :=
   (* markAllNodeRoutesDirty *)
   fold_left (fun s e => if N.eqb (fst (fst e)) n then mark_dirty s (snd (fst e)) else s) (s_nr s) s.
 
-Definition on_wep (s : st) (id : N) (cs : list prefix) : st :=
+Definition node_unchanged (s : st) (n : N) (v : option nodev) : bool :=
+  opt_eqb ninfo_eqb (aget N.eqb (s_nodes s) n) (option_map ninfo_of v).
+
+Definition on_node (fixed : bool) (s : st) (n : N) (v : option nodev) : st :=
+  if node_unchanged s n v then s else on_node_forced fixed s n v.
+
+(* OnWorkloadUpdate past its "no change" test *)
+Definition on_wep_forced (s : st) (id : N) (cs : list prefix) : st :=
   let old := match aget N.eqb (s_weps s) id with Some l => l | None => [] end in
-  if list_eqb prefix_eqb old cs then s else
   let s := fold_left (fun s c => nr_add (fst (update_cidr s c (fun r => with_wep r (S (ri_wep r))))) (me, c)) cs s in
   let s := fold_left (fun s c => nr_remove (fst (update_cidr s c (fun r => with_wep r (pred (ri_wep r))))) (me, c)) old s in
   match cs with
   | [] => set_weps s (aremove N.eqb (s_weps s) id)
   | _ => set_weps s (aset N.eqb (s_weps s) id cs)
   end.
+
+Definition wep_unchanged (s : st) (id : N) (cs : list prefix) : bool :=
+  list_eqb prefix_eqb (match aget N.eqb (s_weps s) id with Some l => l | None => [] end) cs.
+
+Definition on_wep (s : st) (id : N) (cs : list prefix) : st :=
+  if wep_unchanged s id cs then s else on_wep_forced s id cs.
 
 Definition apply_op (fixed : bool) (s : st) (o : op) : st :=
   flush (match o with
@@ -390,6 +402,52 @@ Definition apply_op (fixed : bool) (s : st) (o : op) : st :=
          end).
 
 Definition run (fixed : bool) (ops : list op) : st := fold_left (apply_op fixed) ops st0.
+
+(* ------------------------------------------------------------------ dual stack
+   The resolver keeps one trie per IP family; pools, blocks and workload addresses belong to one family, a node
+   carries an address + subnet of each family and a workload endpoint a list of each.  The two families share the
+   "no change" tests of onNodeUpdate (l3rrNodeInfo.Equal over both families) and OnWorkloadUpdate (DeepEqual of the
+   concatenated lists): when either family's part changed, BOTH parts are processed.  So the dual-stack resolver is
+   the pair of two single-family instances in which a node / workload update is forced through whenever the other
+   family's part changed.  (IPv6 prefixes are modelled by their last 32 bits under a fixed /96: the driver's IPv6
+   universe lives inside one /96, where the trie, Contains and LookupPath act exactly as on 32-bit prefixes.) *)
+Inductive op2 :=
+| P2 (v6 : bool) (c : prefix) (v : option poolv)
+| B2 (v6 : bool) (c : prefix) (v : option blockv)
+| N2 (n : N) (v : option (nodev * nodev))        (* known node: (IPv4 part, IPv6 part) *)
+| W2 (id : N) (cs4 cs6 : list prefix).
+
+(* an update of one family, possibly forced past the "no change" test *)
+Inductive fop := FOp (force : bool) (o : op).
+Definition apply_fop (fixed : bool) (s : st) (x : fop) : st :=
+  match x with
+  | FOp true (OpNode n v) => flush (on_node_forced fixed s n v)
+  | FOp true (OpWep id cs) => flush (on_wep_forced s id cs)
+  | FOp _ o => apply_op fixed s o
+  end.
+Definition runf (fixed : bool) (xs : list fop) : st := fold_left (apply_fop fixed) xs st0.
+
+(* the two single-family updates a dual-stack update amounts to, given the current states *)
+Definition split2 (s4 s6 : st) (o : op2) : option fop * option fop :=
+  match o with
+  | P2 false c v => (Some (FOp false (OpPool c v)), None)
+  | P2 true c v => (None, Some (FOp false (OpPool c v)))
+  | B2 false c v => (Some (FOp false (OpBlock c v)), None)
+  | B2 true c v => (None, Some (FOp false (OpBlock c v)))
+  | N2 n v =>
+      let v4 := option_map fst v in let v6 := option_map snd v in
+      let force := negb (node_unchanged s4 n v4 && node_unchanged s6 n v6) in
+      (Some (FOp force (OpNode n v4)), Some (FOp force (OpNode n v6)))
+  | W2 id cs4 cs6 =>
+      let force := negb (wep_unchanged s4 id cs4 && wep_unchanged s6 id cs6) in
+      (Some (FOp force (OpWep id cs4)), Some (FOp force (OpWep id cs6)))
+  end.
+Definition apply2 (fixed : bool) (ss : st * st) (o : op2) : st * st :=
+  let '(x4, x6) := split2 (fst ss) (snd ss) o in
+  (match x4 with Some x => apply_fop fixed (fst ss) x | None => fst ss end,
+   match x6 with Some x => apply_fop fixed (snd ss) x | None => snd ss end).
+Definition run2 (fixed : bool) (ops : list op2) : st * st := fold_left (apply2 fixed) ops (st0, st0).
+
 
 (* ------------------------------------------------------------------ route managers *)
 
